@@ -1,0 +1,14 @@
+//go:build verif
+
+package avc
+
+// VerifStartCodePositions exposes the word-at-a-time start-code scanner to the model-based
+// verification harness (build tag verif only): per start code the position of the byte
+// following it and the start-code length, plus the minimal start-code length.
+func VerifStartCodePositions(stream []byte) (positions [][2]int, minStartCodeLength int) {
+	scNalus, minLen := getStartCodePositions(stream)
+	for _, s := range scNalus {
+		positions = append(positions, [2]int{s.startPos, s.startCodeLength})
+	}
+	return positions, minLen
+}
